@@ -620,6 +620,20 @@ func shrink(j *job, law string, tries int, budget int) *job {
 				i--
 			}
 		}
+		// the items of a `SELECT a, b, c` list
+		for si := 0; cur.Stmts != nil && si < len(cur.Stmts); si++ {
+			head, items, ok := selectItems(cur.Stmts[si])
+			for i := 0; ok && len(items) > 1 && i < len(items); i++ {
+				c := cur.clone()
+				rest := append(append([]string{}, items[:i]...), items[i+1:]...)
+				c.Stmts[si] = head + strings.Join(rest, ", ")
+				if fails(c) {
+					cur, changed = c, true
+					items = rest
+					i--
+				}
+			}
+		}
 		// options
 		for i := 0; i < len(cur.Opts); i++ {
 			c := cur.clone()
@@ -676,6 +690,43 @@ func shrink(j *job, law string, tries int, budget int) *job {
 		}
 	}
 	return cur
+}
+
+// selectItems splits `SELECT a, b, c` (no FROM / clauses at the top level) into its items.
+func selectItems(stmt string) (head string, items []string, ok bool) {
+	if !strings.HasPrefix(strings.ToUpper(stmt), "SELECT ") {
+		return "", nil, false
+	}
+	head, body := stmt[:7], stmt[7:]
+	depth, start := 0, 0
+	var quote byte
+	for i := 0; i < len(body); i++ {
+		c := body[i]
+		switch {
+		case quote != 0:
+			if c == '\\' {
+				i++
+			} else if c == quote {
+				quote = 0
+			}
+		case c == '\'' || c == '"' || c == '`':
+			quote = c
+		case c == '(':
+			depth++
+		case c == ')':
+			depth--
+		case c == ',' && depth == 0:
+			items = append(items, strings.TrimSpace(body[start:i]))
+			start = i + 1
+		case depth == 0 && (c == ' ' || c == '\n') && i+6 <= len(body) && strings.EqualFold(body[i:i+6], " FROM "):
+			return "", nil, false
+		}
+	}
+	if quote != 0 || depth != 0 {
+		return "", nil, false
+	}
+	items = append(items, strings.TrimSpace(body[start:]))
+	return head, items, true
 }
 
 func shrinkBytes(b []byte, fails func([]byte) bool) ([]byte, bool) {
@@ -770,7 +821,7 @@ func run(seed int64, n int, dir string, _ []string) {
 			}
 			o.Count(fmt.Sprintf("exit:%d", r.rc))
 			if r.rc != 0 && !r.timedOut {
-				o.Count("error_class:" + errClass(r))
+				o.Count("error_class:" + errClass(j, r))
 			}
 			laws, notes := judge(j, r)
 			for _, nt := range notes {
@@ -826,7 +877,7 @@ func run(seed int64, n int, dir string, _ []string) {
 			if isHang {
 				// first make sure it is not merely slow under the load of the parallel phase: once more, with the full bound
 				if r := execJob(j); !r.timedOut {
-					reports[li].skip = "observed:slow_under_load_but_finished_on_a_second_run(not a law)"
+					reports[li].skip = "observed:slow_under_load_but_finished_on_a_second_run(not a law):" + strings.TrimPrefix(l, "hang:")
 					return
 				}
 				// a candidate that still runs after 4 s counts as still hanging (a shrunk result is confirmed below)
@@ -897,30 +948,49 @@ func sigTags(tags []string) []string {
 	return out
 }
 
-var reErrHead = regexp.MustCompile(`^(?:\S+ )?(?:\[L:\d+ C:\d+\] )?(.*)`)
+var reErrHead = regexp.MustCompile(`^(?:\S+ )?\[L:\d+ C:\d+\] (.*)`)
+var reQuoted = regexp.MustCompile("\"[^\"]*\"|'[^']*'|`[^`]*`")
 
-// errClass: a coarse class of the error message (the text up to the first variable part).
-func errClass(r result) string {
-	line := strings.TrimSpace(r.stderr)
-	if i := strings.IndexByte(line, '\n'); i >= 0 {
-		line = line[:i]
+// errClass: the error message with its variable parts masked (quoted text, numbers, words that come from the
+// program text), cut to its first words — a coarse but stable class of the documented error messages.
+func errClass(j *job, r result) string {
+	line := ""
+	for _, l := range strings.Split(r.stderr, "\n") {
+		l = strings.TrimSpace(l)
+		if l == "" || strings.HasPrefix(l, "No help topic for") {
+			continue
+		}
+		line = l
+		break
 	}
 	if m := reErrHead.FindStringSubmatch(line); m != nil {
 		line = m[1]
 	}
-	words := strings.Fields(line)
+	line = reQuoted.ReplaceAllString(line, "_")
+	prog := strings.Join(j.argv(), " ")
 	var keep []string
-	for _, w := range words {
-		if strings.ContainsAny(w, "0123456789'\"`/\\:()[]{}<>=,") || len(w) > 14 {
-			break
+	for _, w := range strings.Fields(line) {
+		core := strings.Trim(w, ".,:;()[]{}")
+		switch {
+		case core == "":
+			continue
+		case strings.ContainsAny(core, "0123456789/\\_=<>'\"`@%$*+|{}[]"):
+			w = "_"
+		case len(core) > 2 && core != strings.ToLower(core):
+			w = "_" // identifiers, function names, file names are echoed as written
+		case len(core) > 3 && strings.Contains(prog, core) && !strings.Contains(" field function table file cursor variable view value values query select from record records ", " "+core+" "):
+			w = "_"
 		}
-		keep = append(keep, strings.ToLower(w))
-		if len(keep) == 4 {
+		if w == "_" && len(keep) > 0 && keep[len(keep)-1] == "_" {
+			continue
+		}
+		keep = append(keep, w)
+		if len(keep) == 9 {
 			break
 		}
 	}
 	if len(keep) == 0 {
-		return fmt.Sprintf("rc%d:(other)", r.rc)
+		return fmt.Sprintf("rc%d:(no message)", r.rc)
 	}
 	return fmt.Sprintf("rc%d:%s", r.rc, strings.Join(keep, " "))
 }
